@@ -75,8 +75,10 @@ def show(e):
     return repr(e)
 
 
-def paths(fn, max_paths=64, max_len=400):
-    """Yield (conds, result_expr) for each acyclic entry->return path. conds = [(expr, taken_value)]."""
+def paths(fn, max_paths=64, max_len=400, skip_loops=False):
+    """Yield (conds, result_expr) for each acyclic entry->return path. conds = [(expr, taken_value)].
+    skip_loops: paths that run into a loop are dropped instead of making the whole function TooComplex (the caller selects the
+    loop-free region it is interested in by the path conditions)."""
     out = []
 
     def op_expr(env, op):
@@ -133,6 +135,8 @@ def paths(fn, max_paths=64, max_len=400):
         if len(out) >= max_paths:
             raise TooComplex("too many paths")
         if b in visited:
+            if skip_loops:
+                return
             raise TooComplex("loop")
         if depth > max_len:
             raise TooComplex("path too long")
